@@ -1153,6 +1153,23 @@ pub fn units() -> Vec<Unit> {
             CustomMulti(crate::maccmd_sets::framing_downlink_remote),
         ],
     },
+    Unit {
+        module: "Gen.MacCmdFnUplinkRemoteSetup",
+        file: "lorawan-encoding/src/multicast/mod.rs",
+        more_files: vec!["lorawan-encoding/src/multicast/group_status.rs", "lorawan-encoding/src/maccommands.rs", "lorawan-macros/src/lib.rs"],
+        imports: vec!["LoraVerif.RtBits"],
+        items: vec![
+            CustomMulti(crate::maccmd_sets::payloads_uplink_remote),
+            Newtype("McGroupStatusItem"),
+            Fn("McGroupStatusItem::len"),
+            Fn("McGroupStatusAnsPayload::required_len"),
+            Fn("McGroupStatusAnsPayload::len"),
+            EnumData("UplinkRemoteSetup"),
+            EnumData("ParseError"),
+            StructPartial("MacCommands", &["data", "errored"]),
+            CustomMulti(crate::maccmd_sets::framing_uplink_remote),
+        ],
+    },
     ]
 }
 
